@@ -137,6 +137,10 @@ func vhFiniteAlpha(prefix string, r *FiniteReplayer) []vhEntry {
 		e := q.buf[(q.head+k)%n]
 		verifAssert(e.message == nil && e.topics == nil, prefix+"/inv-dead-slots-are-zero")
 	}
+	// ... including the part of the backing array hidden beyond len(buf)
+	for _, e := range q.buf[:cap(q.buf)][n:] {
+		verifAssert(e.message == nil && e.topics == nil, prefix+"/inv-no-hidden-slots-beyond-len")
+	}
 	return alpha
 }
 
@@ -177,8 +181,18 @@ func vhC08Put() {
 	}
 	wireBefore := m.String()
 	idBefore := m.ID
+	oldWires := make([]string, len(alpha))
+	for k := range alpha {
+		oldWires[k] = alpha[k].msg.String()
+	}
 
 	got, err := r.Put(m, topics)
+
+	// C19: every publication is its own object and earlier publications never change
+	for k := range alpha {
+		verifAssert(got == nil || got != alpha[k].msg, "C19/Put/publication-is-a-fresh-object")
+		verifAssert(alpha[k].msg.String() == oldWires[k], "C19/Put/earlier-publications-unchanged")
+	}
 
 	// C19: the caller's message is never modified
 	verifAssert(m.ID == idBefore && m.String() == wireBefore, "C08/Put/caller-message-unchanged")
